@@ -5,6 +5,7 @@ import (
 	"encoding/json"
 	"fmt"
 	"sort"
+	"strconv"
 	"strings"
 
 	"verif/harness/peer"
@@ -46,10 +47,22 @@ const (
 	c01rn                // notification whose handler returns an error with code InvalidRequest
 	c01pn                // notification whose handler returns an error with code ParseError
 	c01xc                // call whose handler returns a pre-encoded multi-line json.RawMessage
+	c01bc                // call whose handler returns an *Error whose Data is not valid JSON (it cannot be encoded as it is)
 	c01numKinds
 )
 
-var c01names = [...]string{"gc", "ic", "ec", "gn", "in", "uc", "un", "vi", "vn", "rc", "rn", "pn", "xc"}
+var c01names = [...]string{"gc", "ic", "ec", "gn", "in", "uc", "un", "vi", "vn", "rc", "rn", "pn", "xc", "bc"}
+
+const c01bcBase = 9000
+
+// c01isBC recognises the ids c01build gives to c01bc members.
+func c01isBC(id string) bool {
+	if strings.HasPrefix(id, `"b`) {
+		return true
+	}
+	n, err := strconv.Atoi(id)
+	return err == nil && n >= c01bcBase
+}
 
 type c01member struct {
 	kind c01kind
@@ -88,6 +101,8 @@ func (m c01member) wire() string {
 		return peer.Req("", "p", m.tag)
 	case c01xc:
 		return peer.Req(m.id, "x", m.tag)
+	case c01bc:
+		return peer.Req(m.id, "b", m.tag)
 	}
 	panic("kind")
 }
@@ -157,6 +172,15 @@ func c01build(shapes []c01shape) (msgs []c01msg, gates []string) {
 				} else {
 					mem.id = fmt.Sprint(n)
 				}
+			case c01bc:
+				// ids of these calls are recognisable: their handler's error cannot be
+				// sent as it is, and which error the server reports instead is its choice
+				n++
+				if n%2 == 0 {
+					mem.id = fmt.Sprintf(`"b%d"`, n)
+				} else {
+					mem.id = fmt.Sprint(c01bcBase + n)
+				}
 			}
 			if mem.gated() {
 				gates = append(gates, mem.tag)
@@ -182,6 +206,8 @@ func c01predict(m c01msg, seq map[string]string) string {
 			parts = append(parts, fmt.Sprintf("id=%s error=-32600", mem.id))
 		case c01xc:
 			parts = append(parts, fmt.Sprintf(`id=%s result={"t":%q,"a":[1,2]}`, mem.id, mem.tag))
+		case c01bc:
+			parts = append(parts, fmt.Sprintf("id=%s error=ANY", mem.id))
 		case c01uc:
 			parts = append(parts, fmt.Sprintf("id=%s error=-32601", mem.id))
 		case c01vi:
@@ -251,7 +277,9 @@ func c01actual(c *vt.Ctx, rec []byte) string {
 				Message string `json:"message"`
 			}
 			json.Unmarshal(obj["error"], &e)
-			if e.Code == 7 {
+			if c01isBC(id) {
+				parts = append(parts, fmt.Sprintf("id=%s error=ANY", id))
+			} else if e.Code == 7 {
 				parts = append(parts, fmt.Sprintf("id=%s error=7:%s", id, e.Message))
 			} else {
 				parts = append(parts, fmt.Sprintf("id=%s error=%d", id, e.Code))
@@ -419,7 +447,7 @@ func init() {
 		Prop:  "C01",
 		Level: "exploration",
 		Rule: "scripts = sequences of inbound messages (single or batch) over member kinds {gated call, instant call, erroring call, gated notification, instant notification, unknown-method call, " +
-			"unknown-method notification, invalid member with id, invalid member without id} with unique ids/tags, all sent before any gate opens (one message: every shape with batches up to 3 members; two messages: every ordered pair of shapes with batches up to 2 members — a seeded 40% of the pairs in the quick tier; three messages: seeded), x every release order of the gates (<=4; seeded beyond) " +
+			"unknown-method notification, invalid member with id, invalid member without id, call / notification whose handler fails with the codes -32600 / -32700, call returning pre-encoded multi-line JSON, call whose handler's error carries data that are not JSON (any error response is accepted for it)} with unique ids/tags, all sent before any gate opens (one message: every shape with batches up to 3 members; two messages: every ordered pair of shapes with batches up to 2 members — a seeded 40% of the pairs in the quick tier; three messages: seeded), x every release order of the gates (<=4; seeded beyond) " +
 			"x Concurrency in {1,2,16}; reference response calculator compared at every quiescent point; plus delay-bounded schedules and seeded perturbation. " +
 			"distinct_nontrivial = distinct (script, concurrency, release order, delay set) with at least one call and at least two members",
 		Assumptions: []string{
